@@ -7,3 +7,77 @@ try:
     REPLAYERS.update(getattr(_ring, "REPLAYERS", {}))
 except ImportError:
     _ring = None
+
+import itertools
+import numpy, z3
+from pyvc import sym, barr, modeb
+from pyvc.sym import cur, _t
+
+R = lambda x: (z3.ToReal(_t(x)) if _t(x).sort() == z3.IntSort() else _t(x))
+
+
+def _dominated_by(F, i, j, nobj):
+    """point j is at least as good as i in every objective and strictly better in one (maximising)"""
+    ge = z3.And(*[F[j][k] >= F[i][k] for k in range(nobj)])
+    gt = z3.Or(*[F[j][k] > F[i][k] for k in range(nobj)])
+    return z3.And(ge, gt)
+
+
+def _pareto_body(e, shape, tag):
+    from pybrops.core.util.pareto import is_pareto_efficient
+    npt, nobj, signs = shape
+    pts = barr.fresh("f", (npt, nobj), "float64")
+    wt = numpy.array(signs, dtype=float)
+    mask = is_pareto_efficient(pts, wt, return_mask=True)
+    idx = is_pareto_efficient(pts, wt, return_mask=False)
+    F = [[R(pts[i, k]) * int(signs[k]) for k in range(nobj)] for i in range(npt)]
+    mk = [bool(mask[i]) for i in range(npt)]          # concrete on this path
+    for i in range(npt):
+        dom_any = z3.Or(*[_dominated_by(F, i, j, nobj) for j in range(npt) if j != i]) if npt > 1 else z3.BoolVal(False)
+        if mk[i]:
+            e.prove("%s:marked-point-%d-is-not-dominated" % (tag, i), z3.Not(dom_any))
+        else:
+            cover = z3.Or(*[z3.Or(_dominated_by(F, i, j, nobj), z3.And(*[F[j][k] == F[i][k] for k in range(nobj)]))
+                            for j in range(npt) if j != i and mk[j]]) if any(mk) else z3.BoolVal(False)
+            e.prove("%s:unmarked-point-%d-is-equalled-or-dominated-by-a-marked-one" % (tag, i), cover)
+    e.prove(tag + ":mask-and-index-forms-agree", sorted(int(x) for x in idx) == [i for i in range(npt) if mk[i]])
+    return "ok"
+
+
+def _reg_pareto(npt, nobjs, tiers):
+    @unit(P, "B[is_pareto_efficient == non-dominated set, npt=%d]" % npt, "B", bounded=True, tiers=tiers,
+          targets=["pybrops/core/util/pareto.py:is_pareto_efficient"],
+          note="bounded(shape): npt=%d, nobj in %s; coordinates symbolic reals incl. ties/duplicates; sign vectors enumerated" % (npt, nobjs))
+    def u(ctx):
+        shapes = []
+        for nobj in nobjs:
+            for signs in itertools.product([1, -1], repeat=nobj):
+                if nobj == 3 and signs not in ((1, 1, 1), (1, -1, 1)):
+                    continue
+                if npt >= 4 and nobj >= 2 and ctx.tier == "quick" and signs not in ((1, 1), (1, -1)):
+                    continue
+                shapes.append((npt, nobj, signs))
+        modeb.run_shapes(ctx, "pareto", shapes, _pareto_body, max_paths=200000)
+    return u
+
+
+for _n in (1, 2, 3, 4):
+    _reg_pareto(_n, [1, 2] if _n == 4 else [1, 2, 3], ("quick", "thorough"))
+_reg_pareto(5, [1, 2], ("thorough",))
+
+
+@unit(P, "B[pymoo_addon.dominates: feasibility first, then Pareto dominance]", "B", bounded=True,
+      targets=["pybrops/opt/algo/pymoo_addon.py:dominates"], note="bounded(shape): nobj<=3; objectives and violations symbolic reals")
+def u_b_dominates(ctx):
+    def body(e, shape, tag):
+        from pybrops.opt.algo.pymoo_addon import dominates
+        nobj = shape[0]
+        o1, o2 = barr.fresh("a", (nobj,), "float64"), barr.fresh("b", (nobj,), "float64")
+        c1, c2 = sym.fresh_real("cv1"), sym.fresh_real("cv2")
+        res = dominates(o1, c1, o2, c2)
+        feas = z3.And(c1.t <= 0, c2.t <= 0)
+        pareto = z3.And(z3.And(*[R(o1[k]) <= R(o2[k]) for k in range(nobj)]), z3.Or(*[R(o1[k]) < R(o2[k]) for k in range(nobj)]))
+        spec = z3.If(feas, pareto, c1.t < c2.t)
+        e.prove(tag + ":result==spec", _t(res) == spec)
+        return "ok"
+    modeb.run_shapes(ctx, "dominates", [(1,), (2,), (3,)], body)
